@@ -23,6 +23,7 @@ func init() {
 			"R6 (= C14.R6/R6b) the manifest parsed, extended and written back comes from this attempt's workspace and lives in an object allocated during the attempt. " +
 			"R3c the manifest bytes handed to the workspace are prototext.Marshal's output with constant framing only (append / conversion / slicing); no other function is applied to them. " +
 			"R5 every in-repo implementation of ChangeOps.WriteOrCreateFiles replaces a file's contents wholly (os.WriteFile / os.Create, or os.OpenFile with O_TRUNC and without O_APPEND), so a rewritten manifest or endorsement that got shorter keeps no stale tail. " +
+			"R8 (= C14.R8) no workspace function returns nil after a failed read that was not found to be 'not found' (the existence probe of the overwrite gate included). " +
 			"R7 (ESP) ChangeOps.TryCommit is never reached in a state where an endorsement file was written under the output directory (a call whose callee reaches an endorsement write and whose path argument derives from Context.OutDir) in the current workspace and no manifest write succeeded after it: the committed manifest maps the run's digest to the file the run wrote. " +
 			"Not covered: the four-way merge preserving path/digest uniqueness over histories (a relational invariant over list contents), that the manifest parses back.",
 		Assumptions: []string{"go/types, go/ssa, VTA call graph", "ChangeOps.ReadFile / IsNotFound faithfully report existence"},
@@ -34,6 +35,9 @@ func runC13(c *Ctx) {
 	// R6 = C14.R6/R6b: the manifest that is extended and written back is the one read from this attempt's workspace
 	// into an object allocated during the attempt (a stale view drops entries committed in between).
 	c.borrow("R6/C14.", runC14, func(rule, _ string) bool { return rule == "R6" || rule == "R6b" })
+	// R8 = C14.R8: the existence probe behind the overwrite gate (and the manifest read) does not take a failed read
+	// for an absent file: a probe that answers "absent" on a read error opens the gate over an existing endorsement.
+	c.borrow("R8/C14.", runC14, func(rule, _ string) bool { return rule == "R8" })
 	endorsePkg := repoPath("endorse")
 	vf := c.fn("R0", "endorse", "VirtualFirmware")
 	allow := c.fn("R0", "cmd/output", "AllowOverwrite")
